@@ -171,6 +171,7 @@ type checkResult struct {
 	obligations []*Obligation
 	errors      []string
 	bounded     []boundedResult
+	lost        []string // violation lines for functions whose baseline obligations can no longer be generated
 	solverTime  float64
 	wall        float64
 }
@@ -296,7 +297,21 @@ func cmdCheck(id, tier string, writeBaseline, verbose bool) int {
 			res := eng.VerifyFunction(fn, fc)
 			cr.results = append(cr.results, res)
 			if res.Unsupported != "" {
-				cr.errors = append(cr.errors, fmt.Sprintf("function %s outside the verifier's subset: %s", fkey, res.Unsupported))
+				// obligations of this function that were discharged on the baseline can no longer be established
+				nBase := 0
+				for n := range loadBaseline(id) {
+					if strings.HasPrefix(n, res.Fn+"#") {
+						nBase++
+					}
+				}
+				if nBase > 0 && !gSelftest {
+					p := filepath.Join(outDir, "replay_"+sanitizeFile(res.Fn)+"--unverifiable.txt")
+					os.WriteFile(p, []byte(fmt.Sprintf("property: %s\nfunction: %s\n%d obligations of this function were discharged on the baseline and can no longer be established:\nthe function (or its loop structure) changed so that the contract no longer applies: %s\n", id, fkey, nBase, res.Unsupported)), 0o644)
+					cr.lost = append(cr.lost, fmt.Sprintf("VIOLATION property=%s replay=%s no-failing-input-found", id, p))
+					fmt.Printf("FAILED %d baseline obligations of %s can no longer be established: %s\n", nBase, fkey, res.Unsupported)
+				} else {
+					cr.errors = append(cr.errors, fmt.Sprintf("function %s outside the verifier's subset: %s", fkey, res.Unsupported))
+				}
 				continue
 			}
 			dischargeAll(res.Query, filepath.Join(outDir, sanitizeFile(res.Fn)), timeout, confirm, 16)
@@ -434,6 +449,7 @@ func report(cr *checkResult, id, tier string, seed int, outDir string, writeBase
 			fmt.Printf("NOTE: %d baseline obligations no longer generated (e.g. %s)\n", len(missing), missing[0])
 		}
 	}
+	violations = append(violations, cr.lost...)
 	for _, b := range cr.bounded {
 		if b.failed {
 			violations = append(violations, fmt.Sprintf("VIOLATION property=%s replay=%s", id, b.replay))
